@@ -49,6 +49,9 @@ var runners = map[string]runner{
 	"C18": func(t TB, p *Program) { RunC18(t, p) },
 	"C05": func(t TB, p *Program) { RunC05(t, p) },
 	"C06": func(t TB, p *Program) { RunC06(t, p) },
+	"C03": func(t TB, p *Program) { RunConc(t, p) },
+	"C16": func(t TB, p *Program) { RunC16(t, p) },
+	"C17": func(t TB, p *Program) { RunConc(t, p) },
 }
 
 func replayProgram(t TB, p *Program) {
